@@ -109,17 +109,20 @@ Qed.
 (* ------------------------------------------------------------------------------------------ *)
 (* facts about the inner manager used below *)
 
+Ltac crunch H :=
+  repeat match type of H with
+         | context [match nth_error ?l ?i with _ => _ end] =>
+             let E := fresh "E" in destruct (nth_error l i) eqn:E; try discriminate
+         | context [match p_st ?p with _ => _ end] => destruct (p_st p); try discriminate
+         | context [if ?b then _ else _] => destruct b; try discriminate
+         end.
+
 Lemma step_r_returned v x ev y e :
   r_pc x = RReturned e -> (inner_allowed ev = true \/ ev = RCloseCh) ->
   step_r v x ev = Some y -> r_pc y = RReturned e.
 Proof.
   intros Hpc Hal H. destruct ev; cbn in Hal; destruct Hal as [Hal|Hal]; try discriminate;
-    cbn [step_r] in H; rewrite ?Hpc in H; try discriminate.
-  - destruct (nth_error (r_procs x) i) as [p|]; try discriminate.
-    destruct (p_st p); try discriminate. destruct (may_return x (p_beh p)); inv H. cbn; congruence.
-  - destruct (nth_error (r_procs x) i); discriminate.
-  - inv H. cbn; congruence.
-  - inv H. cbn; congruence.
+    cbn [step_r] in H; rewrite ?Hpc in H; try discriminate; crunch H; inv H; cbn; congruence.
 Qed.
 
 Lemma step_r_idle v bs x ev y :
@@ -127,12 +130,11 @@ Lemma step_r_idle v bs x ev y :
   (inner_allowed ev = true \/ ev = RCloseCh) ->
   step_r v x ev = Some y -> r_pc y = RIdle /\ r_running y = false.
 Proof.
-  intros I Hpc Hr Hal H. destruct ev; cbn in Hal; destruct Hal as [Hal|Hal]; try discriminate;
-    cbn [step_r] in H; rewrite ?Hpc in H; try discriminate.
-  - rewrite (i_noprocs _ _ _ I (or_introl Hpc)) in H. destruct i; discriminate.
-  - destruct (nth_error (r_procs x) i); discriminate.
-  - inv H. auto.
-  - inv H. auto.
+  intros I Hpc Hr Hal H. pose proof (i_noprocs _ _ _ I (or_introl Hpc)) as Hnp.
+  destruct ev; cbn in Hal; destruct Hal as [Hal|Hal]; try discriminate;
+    cbn [step_r] in H; rewrite ?Hpc, ?Hnp in H; try discriminate; crunch H;
+    try (match goal with E : nth_error [] ?i = Some _ |- _ => destruct i; discriminate end);
+    inv H; cbn; auto.
 Qed.
 
 (* ------------------------------------------------------------------------------------------ *)
@@ -193,3 +195,14 @@ Ltac cfin :=
        closing_pc done_pc];
   auto; try discriminate; try tauto; try (intros; discriminate); try (intro; congruence);
   try (intros [?|?]; discriminate).
+
+Lemma cinv_step v grace bs s e s' : cinv v grace bs s -> step_c v s e = Some s' -> cinv v grace bs s'.
+Proof.
+  intros I H.
+  destruct I as [Iin Irun Inot Iearly Iclosing Iidle Istop Idone Ireterr Iclosers Icoll Idn Istarts
+                 Ikret Iacc J1 J2 J3 J4 Ing].
+  destruct e; cbn [step_c] in H.
+  - (* CRunCas *)
+    destruct (c_running s) eqn:Er; inv H.
+    + constructor; cfin.
+    + destruct (Inot eq_refl) as [Hpc Hst]. constructor; cfin.
